@@ -14,6 +14,8 @@ use std::path::PathBuf;
 use std::sync::OnceLock;
 
 pub const SHARDS: u64 = 16;
+/// wall-clock bound on shrinking one failure (shrinking only improves the report, never the verdict)
+pub const SHRINK_BUDGET_S: u64 = 45;
 
 #[derive(Clone, Debug)]
 pub struct Failure {
@@ -464,16 +466,29 @@ fn run_shard(prop: &str, sub: &str, f: RandomFn, cases: u32, len: usize, seed: u
     let strat = proptest::collection::vec(any::<u32>(), (len / 2)..=len);
     let obs = RefCell::new(Obs::new());
     let failed = Cell::new(false);
+    let first_failure: RefCell<Option<(Vec<u32>, Failure)>> = RefCell::new(None);
+    let shrink_started: Cell<Option<std::time::Instant>> = Cell::new(None);
     let r = runner.run(&strat, |choices| {
         let mut o = obs.borrow_mut();
         o.counting = !failed.get();
         if o.counting {
             o.cases += 1;
         }
+        // shrinking is bounded by wall-clock too: when the budget is spent every candidate "passes",
+        // which ends proptest's shrinking with the best case found so far
+        if let Some(t) = shrink_started.get() {
+            if t.elapsed().as_secs() > SHRINK_BUDGET_S {
+                return Ok(());
+            }
+        }
         match run_case(f, &choices, &mut o) {
             Ok(()) => Ok(()),
             Err(e) => {
-                failed.set(true);
+                if !failed.get() {
+                    failed.set(true);
+                    shrink_started.set(Some(std::time::Instant::now()));
+                    *first_failure.borrow_mut() = Some((choices.clone(), e.clone()));
+                }
                 Err(TestCaseError::fail(e.msg))
             }
         }
@@ -483,11 +498,21 @@ fn run_shard(prop: &str, sub: &str, f: RandomFn, cases: u32, len: usize, seed: u
         Ok(()) => (obs, None),
         Err(TestError::Fail(_, minimal)) => {
             obs.counting = false;
-            let fail = run_case(f, &minimal, &mut obs)
-                .err()
-                .unwrap_or_else(|| Failure::new("failure did not reproduce on the shrunk case", json!({})));
+            let fail = match run_case(f, &minimal, &mut obs).err() {
+                Some(e) => e,
+                None => {
+                    // the failure depends on more than the case (history, schedule): report it as first seen
+                    let (c0, mut f0) = first_failure.into_inner().unwrap_or((minimal.clone(), Failure::new("failure did not reproduce", json!({}))));
+                    f0.msg = format!("{} [not reproducible from the case alone: it depends on what ran before or beside it]", f0.msg);
+                    return (obs, Some((c0, f0)));
+                }
+            };
+            let t_shrink = std::time::Instant::now();
             // continue with the harness' own choice-sequence shrinker (deletes spans, lowers values)
             let minimal = shrink_choices(minimal, 40_000, &mut |c: &[u32]| {
+                if t_shrink.elapsed().as_secs() > SHRINK_BUDGET_S {
+                    return false;
+                }
                 let mut o = Obs::new();
                 o.counting = false;
                 run_case(f, c, &mut o).is_err()
